@@ -437,6 +437,7 @@ def run(run):
     run.rule('R-DBG.walk', 'the small list\'s double-free test visits every free node', floor=1)
     run.rule('R-DBG.unwind', 'memory_stack::unwind checks the marker before changing state (shared with C06)', floor=4)
     run.rule('R-DBG.handler', 'checks reach the registered handler iff the condition is false', floor=6)
+    run.rule('R-DBG.state', 'the state the release checks compare with is not changed by a request that fails: valid releases stay valid (shared rule R-THROW.7 of C03)', floor=2)
     run.explanation = ('Analysed in the Debug configuration (these functions do not exist in the pinned build). the checks of memory_stack::unwind are decided by the rules of C06 (reported here as R-DBG.unwind). '
                        'Not decided: that valid releases never trigger a report (needs the list invariants).')
     run.assumptions += ['the "most recently freed node freed twice" case ends in the unreachable-abort path, which the property accepts (stops the program)']
@@ -446,6 +447,8 @@ def run(run):
             run.broke('listed release functions not found [%s]' % cfg)
         if check_search(run, db) < 2:
             run.broke('find_pos / find_pos_interval not found [%s]' % cfg)
+        from rules import c03, c05
+        c03.check_failed_growth(c05._Renamed(run, 'R-DBG.state'), db, only=('static_block_allocator', 'virtual_block_allocator', 'memory_arena', 'memory_stack'))
         if check_stack_unwind(run, db) < 2:
             run.broke('memory_stack::unwind not found [%s]' % cfg)
         if check_handler(run, db) < 3:
